@@ -81,6 +81,7 @@ struct SimCode {
     uint8_t *ps = (uint8_t *) ((uintptr_t) a & ~(uintptr_t) 4095); size_t pl = (((uintptr_t) a + len + 4095) & ~(uintptr_t) 4095) - (uintptr_t) ps;
     if (prot == PROT_WRITE_EXEC) { n_protect_w++; r->windows++; r->open = true; if (pl > 4096 && len < r->len) multi_page_windows++; return mprotect(ps, pl, PROT_READ | PROT_WRITE | PROT_EXEC); }
     n_protect_x++; r->open = false;
+    if (const char *df = getenv("SIMCODE_DUMP")) { FILE *f = fopen(df, "a"); if (f) { fprintf(f, "W %p %zu ", a, len); for (size_t i = 0; i < len; i++) fprintf(f, "%02x", ((uint8_t *) a)[i]); fprintf(f, "\n"); fclose(f); } }
     if (hash_code) trace.bytes(a, len);  // the bytes just published (tasksim: generated machine code must be identical solo and interleaved)
     return mprotect(ps, pl, PROT_READ | PROT_EXEC);
   }
